@@ -81,8 +81,20 @@ func (h *vRegH) takeEvents() []string {
 	return ev
 }
 
+// a remote that swallows everything: it only gives the engine an address other than "local"
+type vRegRemoter struct{}
+
+func (vRegRemoter) Address() string        { return "n7:7000" }
+func (vRegRemoter) Start(*Engine) error    { return nil }
+func (vRegRemoter) Stop() *sync.WaitGroup  { return &sync.WaitGroup{} }
+func (vRegRemoter) Send(*PID, any, *PID)   {}
+
 func runRegHistory(t testing.TB, ops []string) string {
-	e, err := NewEngine(NewEngineConfig())
+	cfg := NewEngineConfig()
+	if len(ops)%2 == 0 { // half of the histories run on an engine that has a remote (its address is not "local")
+		cfg = cfg.WithRemote(vRegRemoter{})
+	}
+	e, err := NewEngine(cfg)
 	if err != nil {
 		t.Fatal(err)
 	}
@@ -209,18 +221,24 @@ func runRegHistory(t testing.TB, ops []string) string {
 			}
 			out = append(out, res+"["+strings.Join(h.takeEvents(), ",")+"]")
 		case "gp": // Registry.GetPID and Context.GetPID (asked from inside an actor) must agree
-			reg := e.Registry.GetPID("k", id) != nil
+			want := NewPID(e.address, "k/"+id)
+			rp := e.Registry.GetPID("k", id)
+			reg := rp != nil
+			wrong := reg && !rp.Equals(want)
 			q := vRegAsk{id, make(chan *PID, 1)}
 			e.Send(asker, q)
 			ctx := reg
 			select {
 			case p := <-q.ack:
 				ctx = p != nil
+				wrong = wrong || (ctx && !p.Equals(want))
 			case <-time.After(3 * time.Second):
 				out = append(out, "NOANSWER")
 				continue
 			}
 			switch {
+			case wrong:
+				out = append(out, fmt.Sprintf("WRONG-PID(Registry.GetPID=%v, the actor is %v)", rp, want))
 			case reg != ctx:
 				out = append(out, fmt.Sprintf("MISMATCH(Registry.GetPID=%v,Context.GetPID=%v)", reg, ctx))
 			case reg:
@@ -266,7 +284,7 @@ func TestVerifReg(t *testing.T) {
 		emit(fmt.Sprintf("corpus%d", i), strings.Split(s, ","))
 	}
 	r := vgen.NewRng(vgen.Seed())
-	n := vgen.Scale(400, 6000)
+	n := vgen.Scale(900, 8000)
 	kinds := []string{"sp", "sp", "sp", "st", "po", "gp", "gp", "sd", "sd", "pw", "sw", "rl"}
 	ids := []string{"a", "b", "c"}
 	for i := 0; i < n; i++ {
